@@ -455,4 +455,311 @@ Proof.
     rewrite <- E1 in Hst'. unfold tcp_close in Hst'. rewrite Hst in Hst'. sproj in Hst'. discriminate.
 Qed.
 
+(* ---------------------------------------------------------------------------------------- *)
+(* K3 / K4                                                                                   *)
+(* ---------------------------------------------------------------------------------------- *)
+Definition K3 (u0 dk T3 : Z) (fa : fair_aux) (st : net) : Prop :=
+  Gbase u0 dk fa st /\ u0 < rcv_off (net_get st y) /\
+  tcp_ack_to_transmit (net_sock st y) = true /\ net_now st y <= T3 /\
+  (forall t, s_ack_delay_timer (net_sock st y) = ADWaiting t -> t <= T3) /\
+  (s_ack_delay_timer (net_sock st y) = ADIdle -> net_now st y + Dack <= T3).
+
+Definition K4 (u0 dk T4 : Z) (fa : fair_aux) (st : net) : Prop :=
+  Gbase u0 dk fa st /\
+  exists j q t d, nth_error (chan_to st x) j = Some q /\ nth_error (fa_dl fa x) j = Some (Some t) /\
+                  net_now st x <= t /\ t <= T4 /\
+                  r_control (snd q) = CNone /\ r_payload (snd q) = [] /\
+                  r_ack_number (snd q) = Some (sq (s_local_seq_no (net_sock st x) + d)) /\
+                  0 < d <= txl x st.
+
+Lemma chan_x_is_out st : chan_to st x = ep_out (net_get st y).
+Proof. reflexivity. Qed.
+
+(* an ACK of RCV.NXT has just been put on the wire by y: phase K4 begins *)
+Lemma k4_enter u0 dk T4 fa st ev st' q :
+  0 <= Dt ->
+  safe3 st' -> Gbase u0 dk fa st -> Gbase u0 dk (fa_after Dt Da fa ev st') st' ->
+  fair_ev fa st ev -> net_step st ev = Ok st' ->
+  chan_to st' x = chan_to st x ++ [q] ->
+  r_control (snd q) <> CSyn ->
+  (exists k, r_ack_number (snd q) = Some (sq (s_local_seq_no (net_sock st' x) + k)) /\ 0 < k <= txl x st') ->
+  net_now st' x + Dt <= T4 ->
+  K4 u0 dk T4 (fa_after Dt Da fa ev st') st'.
+Proof.
+  intros HDt (HR' & HA') HB HB' Hfe H Hch Hns (k & Hak & Hk) HT.
+  destruct HB as (_ & _ & Hsy & _).
+  split; [exact HB'|].
+  set (j := length (chan_to st x)).
+  exists j, q, (net_now st' x + Dt), k.
+  split; [rewrite Hch; unfold j; rewrite nth_error_app2 by lia; rewrite Nat.sub_diag; reflexivity|].
+  split; [apply (fa_after_dl_new Dt Da fa st ev st' x j Hsy); rewrite Hch, app_length; cbn [length]; unfold j; lia|].
+  split; [lia|]. split; [exact HT|].
+  assert (Hin : In q (chan_to st' x)) by (rewrite Hch; apply in_or_app; right; left; reflexivity).
+  destruct (wire_parse_same (snd q)) as (Wc & Wp & _).
+  destruct (as_xchan st' HA' q Hin) as [Hc | (Hc & Hp & _)].
+  - rewrite Wc in Hc. contradiction.
+  - rewrite Wc in Hc. rewrite Wp in Hp. split; [exact Hc|]. split; [exact Hp|]. split; assumption.
+Qed.
+
+(* RCV.NXT of y, read through ow_cross, is an acknowledgement of k > 0 octets of x's queue *)
+Lemma cross_ack u0 st :
+  oneway_safe x st -> una_off (net_get st x) = u0 -> u0 < rcv_off (net_get st y) ->
+  exists k, tcp_window_start (net_sock st y) = sq (s_local_seq_no (net_sock st x) + k) /\ 0 < k <= txl x st.
+Proof.
+  intros HR Hu Hr. destruct (ow_cross x st HR) as (Hc & H0 & H1). fold y in Hc, H0, H1.
+  exists (rcv_off (net_get st y) - una_off (net_get st x)). split; [exact Hc|]. unfold txl. lia.
+Qed.
+
+Lemma K2_step u0 dk T2 fa st ev st' :
+  0 <= Dt -> 0 <= Dack ->
+  safe3 st -> safe3 st' -> K2 u0 dk T2 fa st -> fair_ev fa st ev -> net_step st ev = Ok st' ->
+  (Qg u0 st' \/ K3 u0 dk (T2 + Dack) (fa_after Dt Da fa ev st') st' \/
+   K4 u0 dk (T2 - dk + Dt) (fa_after Dt Da fa ev st') st') \/
+  K2 u0 dk T2 (fa_after Dt Da fa ev st') st'.
+Proof.
+  intros HDt HDa HS HS' (HB & Hrc & i & p & t & Hn & Hdl & Hnow & HtT & Hsq & Hpl & Hak) Hfe H.
+  pose proof HS as (HR & HA). pose proof HS' as (HR' & HA').
+  pose proof HB as (HN & Ho & Hsy & Hdk & Hu & Hl).
+  destruct (gbase_step _ _ _ _ _ _ HR HR' HB Hfe H) as [HQ | (HB' & (Hseq & _) & Hmono & Htl)]; [left; left; exact HQ|].
+  pose proof HB' as (HN' & _ & _ & Hdk' & Hu' & _).
+  assert (Hrc' : u0 < rcv_off (net_get st' y)) by lia.
+  destruct (match ev with NDeliver to j => if side_eqb to y then Nat.eqb j i else false | _ => false end) eqn:Htr.
+  { (* the retransmission is delivered *)
+    destruct ev; try discriminate. destruct (side_eqb to y) eqn:Es; [|discriminate].
+    apply side_eqb_true in Es. apply Nat.eqb_eq in Htr. subst to i0.
+    assert (Hclk : net_now st' y = net_now st y) by (rewrite (net_step_now _ _ _ y H); lia).
+    assert (Hclkx : net_now st' x = net_now st x) by (rewrite (net_step_now _ _ _ x H); lia).
+    left. right.
+    destruct (tracked_below u0 st i p st' HN HS HS' Hu Hrc Hn Hsq Hpl Hak H) as [(q & Hch & Hp) | (Hch & Howed)].
+    - right. apply (k4_enter u0 dk _ fa st _ st' q HDt HS' HB HB' Hfe H Hch).
+      + destruct Hp as (_ & Hc & _). rewrite Hc. discriminate.
+      + destruct (cross_ack u0 st' HR' Hu' Hrc') as (k & Hk1 & Hk2). exists k. split; [|exact Hk2].
+        destruct Hp as (Ha & _). rewrite Ha, Hk1. reflexivity.
+      + lia.
+    - left. split; [exact HB'|]. split; [exact Hrc'|]. split; [exact Howed|]. split; [lia|].
+      destruct (HN' y) as (_ & _ & _ & Hdb). unfold delack_bounded in Hdb. unfold net_sock.
+      pose proof (as_delay st' HA') as Hdel. unfold net_sock in Hdel.
+      split.
+      + intros t0 Et. rewrite Et in Hdb. destruct Hdb as (d & Hd & Hle). rewrite Hd in Hdel.
+        unfold net_now in *. lia.
+      + intros _. lia. }
+  right. split; [exact HB'|]. split; [exact Hrc'|].
+  exists i, p, t.
+  split; [apply (fair_step_nth fa st ev st' y i p Hfe H Hn)|].
+  split.
+  { apply fa_after_dl_keep; [exact Hdl|]. intros to E Eto. subst ev to.
+    rewrite side_eqb_refl, Nat.eqb_refl in Htr. discriminate. }
+  split.
+  { rewrite (net_step_now _ _ _ y H). destruct ev; try lia.
+    apply (tick_respects_dl fa st d y i t Hfe Hdl Hnow). }
+  split; [exact HtT|]. split; [rewrite Hseq; exact Hsq|]. split; assumption.
+Qed.
+
+Lemma K3_step u0 dk T3 fa st ev st' :
+  0 <= Dt ->
+  safe3 st -> safe3 st' -> K3 u0 dk T3 fa st -> fair_ev fa st ev -> net_step st ev = Ok st' ->
+  (Qg u0 st' \/ K4 u0 dk (T3 - dk + Dt) (fa_after Dt Da fa ev st') st') \/
+  K3 u0 dk T3 (fa_after Dt Da fa ev st') st'.
+Proof.
+  intros HDt HS HS' (HB & Hrc & Howed & Hclk & Hwt & Hid) Hfe H.
+  pose proof HS as (HR & HA). pose proof HS' as (HR' & HA').
+  pose proof HB as (HN & Ho & Hsy & Hdk & Hu & Hl).
+  destruct (gbase_step _ _ _ _ _ _ HR HR' HB Hfe H) as [HQ | (HB' & (Hseq & _) & Hmono & Htl)]; [left; left; exact HQ|].
+  pose proof HB' as (HN' & _ & _ & Hdk' & Hu' & _).
+  assert (Hrc' : u0 < rcv_off (net_get st' y)) by lia.
+  (* y's socket untouched: the obligation stays, the clock cannot pass the delayed-ACK deadline *)
+  assert (Hkeep : net_sock st' y = net_sock st y ->
+                  K3 u0 dk T3 (fa_after Dt Da fa ev st') st').
+  { intros Ey. split; [exact HB'|]. split; [exact Hrc'|]. rewrite Ey. split; [exact Howed|].
+    assert (Hc' : net_now st' y <= T3 /\ (s_ack_delay_timer (net_sock st y) = ADIdle -> net_now st' y = net_now st y)).
+    { rewrite (net_step_now _ _ _ y H). destruct ev; try (split; [lia | intros; lia]).
+      destruct Hfe as (Hd0 & Hperm). destruct (Z.eq_dec d 0) as [-> | Hnz]; [split; [lia | intros; lia]|].
+      destruct (Hperm ltac:(lia) y) as (Hpp & _). unfold poll_permits, net_poll_at in Hpp.
+      destruct (ow_tuple x st HR y) as (tu & Htu & _).
+      pose proof (poll_at_owed (ep_cx (net_get st y)) (net_sock st y) ltac:(rewrite Htu; discriminate) Howed) as Hpa.
+      unfold net_sock in *.
+      destruct (tcp_poll_at (ep_cx (net_get st y)) (ep_sock (net_get st y))) as [[|t|]|err|]; try contradiction.
+      destruct Hpa as (t0 & Et0 & Hle). specialize (Hwt t0 Et0). unfold net_now in *.
+      split; [lia|]. intros X. rewrite X in Et0. discriminate. }
+    destruct Hc' as (Hc1 & Hc2).
+    split; [exact Hc1|]. split; [exact Hwt|]. intros X. rewrite (Hc2 X). apply Hid. exact X. }
+  destruct (net_step_kind _ _ _ H) as [w ev0 e' Hse He E | to i E1 _ E | d E1 E | w isn ts E1 E | to i Hd].
+  - destruct (side_cases x w) as [Ew | Ew]; subst w st'.
+    + right. apply Hkeep. unfold net_sock. rewrite net_get_set_other. reflexivity.
+    + change (side_other x) with y in He, Hse, H, HS', HR', HA', HB', HN', Hu', Hdk', Hrc', Htl, Hmono, Hseq |- *.
+      assert (Hclky : net_now (net_set st y e') y = net_now st y).
+      { rewrite (net_step_now _ _ _ y H). destruct ev; try lia. destruct Hse. }
+      assert (Hclkx : net_now (net_set st y e') x = net_now st x).
+      { rewrite (net_step_now _ _ _ x H). destruct ev; try lia. destruct Hse. }
+      assert (Ex : net_get (net_set st y e') x = net_get st x).
+      { pose proof (net_get_set_other st y e') as X. unfold y in X at 2 3. rewrite side_other_inv in X. exact X. }
+      destruct (y_event_ack fa st ev ev0 e' HN HS HS' Hfe Hse He Howed) as [(q & Hout & Hns & Hack) | (Hout & Howed' & Hrel)].
+      * (* an ACK of RCV.NXT is on the wire *)
+        left. right.
+        apply (k4_enter u0 dk _ fa st ev _ q HDt HS' HB HB' Hfe H).
+        -- rewrite !chan_x_is_out, net_get_set_same. exact Hout.
+        -- exact Hns.
+        -- destruct Hack as [Ha | Ha].
+           ++ destruct (cross_ack u0 st HR Hu Hrc) as (k & Hk1 & Hk2). exists k.
+              unfold net_sock in *. rewrite Ex. split; [rewrite Ha, Hk1; reflexivity|].
+              unfold txl, net_sock in *. rewrite Ex. exact Hk2.
+           ++ destruct (cross_ack u0 _ HR' Hu' Hrc') as (k & Hk1 & Hk2). exists k.
+              unfold net_sock in Hk1 at 1. rewrite net_get_set_same in Hk1.
+              split; [rewrite Ha, Hk1; reflexivity | exact Hk2].
+        -- lia.
+      * (* still owed *)
+        right. split; [exact HB'|]. split; [exact Hrc'|]. unfold net_sock. rewrite net_get_set_same.
+        split; [exact Howed'|]. split; [lia|].
+        pose proof (as_delay st HA) as Hdel. unfold net_sock in *.
+        destruct Hrel as [Hr | [Hr | (Hi0 & d & Hd & Hr)]].
+        -- rewrite Hr. split; [exact Hwt|]. intros X. rewrite Hclky. apply Hid. exact X.
+        -- rewrite Hr. split; [intros t0 X; discriminate | intros X; discriminate].
+        -- rewrite Hr. rewrite Hd in Hdel. specialize (Hid Hi0).
+           split; [intros t0 X; inversion X; subst; lia | intros X; discriminate].
+  - subst st'. right. apply Hkeep. reflexivity.
+  - subst st'. right. apply Hkeep. unfold net_sock. destruct (tick_same st d y) as (X & _). exact X.
+  - subst st'. right. apply Hkeep. unfold net_sock. destruct (rand_same st w isn ts y) as (X & _). exact X.
+  - exfalso. destruct Hd as [-> | ->]; exact Hfe.
+Qed.
+
+(* K4: the ACK reaches the sender and is accepted *)
+Lemma tracked_ack u0 st j q d st' :
+  NI st -> safe3 st -> una_off (net_get st x) = u0 ->
+  nth_error (chan_to st x) j = Some q ->
+  r_control (snd q) = CNone -> r_payload (snd q) = [] ->
+  r_ack_number (snd q) = Some (sq (s_local_seq_no (net_sock st x) + d)) -> 0 < d <= txl x st ->
+  net_step st (NDeliver x j) = Ok st' ->
+  u0 < una_off (net_get st' x).
+Proof.
+  intros HN (HR & HA) Hu Hn Hc Hp Hak Hd H.
+  unfold net_step in H. fold (chan_to st x) in H. rewrite Hn in H.
+  apply obind_ok in H. destruct H as (e' & He & H). inversion H; subst st'; clear H.
+  rewrite net_get_set_same.
+  pose proof (NI_live st x HN) as Ix. destruct (HN x) as (Hcx & _). unfold net_sock in *.
+  destruct (ep_step_spec _ _ _ He) as (s' & out & tags & Hs & Hk & _).
+  rewrite (ep_step_una_off _ (EvSegment (fst q) (wire_parse (snd q))) _ _ _ _ I (li_tx _ Ix) He Hs ltac:(discriminate)).
+  cbn [tcp_step] in Hs. apply obind_ok in Hs. destruct Hs as (((s1 & rp) & tg) & Hi & Hs).
+  assert (E : s1 = s') by (inversion Hs; reflexivity). subst s1.
+  pose proof (nth_error_In _ _ Hn) as Hin.
+  rewrite (ingress_is_process _ _ _ (ow_acc x st HR x q Hin)) in Hi. unfold net_sock in Hi.
+  destruct (wire_parse_same (snd q)) as (Wc & Wp & _).
+  destruct (as_xchan st HA q Hin) as [Hsyn | (_ & _ & Hsq)]; [rewrite Wc, Hc in Hsyn; discriminate|].
+  destruct (as_xadv st HA) as (W & HW & Hwe). unfold net_sock in *.
+  pose proof (ow_txb x st HR) as Htxb. unfold net_sock in Htxb.
+  pose proof (ow_est x st HR x) as Hst. unfold net_sock in Hst.
+  assert (Hack : r_ack_number (wire_parse (snd q)) = Some (sq (s_local_seq_no (ep_sock (net_get st x)) + d))).
+  { unfold wire_parse. cbn [r_ack_number]. rewrite Hak. f_equal. unfold seq_norm, sq, seq_modulus.
+    apply Z.mod_mod. change (2 ^ 32) with 4294967296. lia. }
+  unfold txl, net_sock in Hd.
+  assert (HW' : 0 <= W <= 2 ^ 30) by (unfold TcpRecvWindow.p30 in HW; change (2 ^ 30) with 1073741824; lia).
+  pose proof (process_ack_advances _ _ _ _ _ _ _ d W Hcx (seg_ok_parse (snd q)) Ix Hst
+                ltac:(rewrite Wc; exact Hc) ltac:(rewrite Wp; exact Hp) Hsq Hwe HW' Hack Hd Htxb Hi) as Hshr.
+  lia.
+Qed.
+
+Lemma K4_step u0 dk T4 fa st ev st' :
+  safe3 st -> safe3 st' -> K4 u0 dk T4 fa st -> fair_ev fa st ev -> net_step st ev = Ok st' ->
+  Qg u0 st' \/ K4 u0 dk T4 (fa_after Dt Da fa ev st') st'.
+Proof.
+  intros HS HS' (HB & j & q & t & d & Hn & Hdl & Hnow & HtT & Hc & Hp & Hak & Hd) Hfe H.
+  pose proof HS as (HR & HA). pose proof HS' as (HR' & HA').
+  pose proof HB as (HN & Ho & Hsy & Hdk & Hu & Hl).
+  destruct (match ev with NDeliver to i => if side_eqb to x then Nat.eqb i j else false | _ => false end) eqn:Htr.
+  { destruct ev; try discriminate. destruct (side_eqb to x) eqn:Es; [|discriminate].
+    apply side_eqb_true in Es. apply Nat.eqb_eq in Htr. subst to i.
+    left. apply (tracked_ack u0 st j q d st' HN HS Hu Hn Hc Hp Hak Hd H). }
+  destruct (gbase_step _ _ _ _ _ _ HR HR' HB Hfe H) as [HQ | (HB' & (Hseq & _) & _ & Htl)]; [left; exact HQ|].
+  right. split; [exact HB'|].
+  exists j, q, t, d.
+  split; [apply (fair_step_nth fa st ev st' x j q Hfe H Hn)|].
+  split.
+  { apply fa_after_dl_keep; [exact Hdl|]. intros to E Eto. subst ev to.
+    rewrite side_eqb_refl, Nat.eqb_refl in Htr. discriminate. }
+  split.
+  { rewrite (net_step_now _ _ _ x H). destruct ev; try lia.
+    apply (tick_respects_dl fa st d0 x j t Hfe Hdl Hnow). }
+  split; [exact HtT|]. split; [exact Hc|]. split; [exact Hp|]. split; [rewrite Hseq; exact Hak | lia].
+Qed.
+
+Lemma K4_mono u0 dk T T' fa st : T <= T' -> K4 u0 dk T fa st -> K4 u0 dk T' fa st.
+Proof.
+  intros HT (HB & j & q & t & d & A1 & A2 & A3 & A4 & A5). split; [exact HB|].
+  exists j, q, t, d. repeat split; try tauto. lia.
+Qed.
+
+(* ---------------------------------------------------------------------------------------- *)
+(* STEP 3                                                                                    *)
+(* ---------------------------------------------------------------------------------------- *)
+(* y has accepted octets that x has not seen acknowledged (the ACK was lost, or is still owed).
+   On every fair run on which the safety facts hold, before x's clock has advanced by more than
+   RTTE_MAX_RTO + 2 Dt + Dack the run passes through a state in which SND.UNA of x has advanced. *)
+Theorem ack_eventually_advances_snd_una : forall evs fa st st' u0,
+  0 <= Dt -> 0 <= Dack ->
+  NI st -> opts_ok st -> dl_sync fa st ->
+  run_all safe3 st evs -> fair_run Dt Da fa st evs -> net_run st evs = Ok st' ->
+  0 < txl x st -> una_off (net_get st x) = u0 -> u0 < rcv_off (net_get st y) ->
+  net_now st x + max_rto_us + 2 * Dt + Dack < net_now st' x ->
+  exists pre post st1, evs = pre ++ post /\ net_run st pre = Ok st1 /\ net_run st1 post = Ok st' /\
+                       Qg u0 st1.
+Proof.
+  intros evs fa st st' u0 HDt HDk HN Ho Hsy HRun Hfair Hrun Hl Hu Hr Hlate.
+  set (dk := net_now st y - net_now st x).
+  set (T1 := net_now st x + max_rto_us).
+  set (T4 := T1 + 2 * Dt + Dack).
+  assert (Hdk' : net_now st' y - net_now st' x = dk) by (unfold dk; apply (net_run_skew2 _ _ _ y x Hrun)).
+  assert (HK1 : K1 u0 dk T1 fa st).
+  { split; [split; [exact HN|]; split; [exact Ho|]; split; [exact Hsy|]; split; [reflexivity|]; split; [exact Hu | exact Hl]|].
+    split; [exact Hr|]. split; [unfold T1; pose proof max_rto_us_pos; lia|].
+    intros e He. destruct (HN x) as (_ & _ & (_ & Hb) & _). unfold net_sock in He. rewrite He in Hb. exact Hb. }
+  (* the last phase, from any K4 with a deadline not after T4 *)
+  assert (Hfin : forall post1 fa1 st1 T, T <= T4 -> K4 u0 dk T fa1 st1 -> run_all safe3 st1 post1 ->
+            fair_run Dt Da fa1 st1 post1 -> net_run st1 post1 = Ok st' ->
+            exists pre2 post2 st2, post1 = pre2 ++ post2 /\ net_run st1 pre2 = Ok st2 /\
+                                   net_run st2 post2 = Ok st' /\ Qg u0 st2).
+  { intros post1 fa1 st1 T HT HK4 HR1 Hf1 Hr1.
+    destruct (fair_leads_under Dt Da safe3 (K4 u0 dk T4) (fun _ st => Qg u0 st) x T4
+                ltac:(intros fa0 st0 (_ & j0 & q0 & t0 & d0 & _ & _ & A & B & _); lia)
+                ltac:(intros fa0 st0 ev0 st0' R0 R0' J0 F0 S0; exact (K4_step _ _ _ _ _ _ _ R0 R0' J0 F0 S0))
+                post1 fa1 st1 st' (K4_mono _ _ _ _ _ _ HT HK4) HR1 Hf1 Hr1 ltac:(unfold T4, T1 in *; lia))
+      as (pre2 & post2 & fa2 & st2 & -> & Hq1 & Hq2 & _ & _ & HQ).
+    exists pre2, post2, st2. auto. }
+  (* phase 1 *)
+  destruct (fair_leads_under Dt Da safe3 (K1 u0 dk T1)
+              (fun fa st => Qg u0 st \/ K2 u0 dk (T1 + dk + Dt) fa st) x T1
+              ltac:(intros fa0 st0 (_ & _ & H0 & _); exact H0)
+              ltac:(intros fa0 st0 ev0 st0' R0 R0' J0 F0 S0; exact (K1_step _ _ _ _ _ _ _ HDt R0 R0' J0 F0 S0))
+              evs fa st st' HK1 HRun Hfair Hrun ltac:(unfold T1 in *; lia))
+    as (pre & post & fa1 & st1 & -> & Hp1 & Hp2 & HR1 & Hf1 & [HQ | HK2]).
+  { exists pre, post, st1. auto. }
+  (* phase 2 *)
+  set (T2 := T1 + dk + Dt) in *.
+  destruct (fair_leads_under Dt Da safe3 (K2 u0 dk T2)
+              (fun fa st => Qg u0 st \/ K3 u0 dk (T2 + Dack) fa st \/ K4 u0 dk (T2 - dk + Dt) fa st) y T2
+              ltac:(intros fa0 st0 (_ & _ & i0 & p0 & t0 & _ & _ & A & B & _); lia)
+              ltac:(intros fa0 st0 ev0 st0' R0 R0' J0 F0 S0; exact (K2_step _ _ _ _ _ _ _ HDt HDk R0 R0' J0 F0 S0))
+              post fa1 st1 st' HK2 HR1 Hf1 Hp2 ltac:(unfold T2, T1 in *; lia))
+    as (pre2 & post2 & fa2 & st2 & -> & Hq1 & Hq2 & HR2 & Hf2 & [HQ | [HK3 | HK4]]).
+  { exists (pre ++ pre2), post2, st2. split; [rewrite app_assoc; reflexivity|].
+    split; [eapply net_run_app; eassumption|]. split; assumption. }
+  2:{ assert (HT : T2 - dk + Dt <= T4) by (unfold T4, T2; lia).
+      destruct (Hfin post2 fa2 st2 _ HT HK4 HR2 Hf2 Hq2) as (pre3 & post3 & st3 & -> & Hs1 & Hs2 & HQ).
+      exists (pre ++ pre2 ++ pre3), post3, st3. split; [rewrite !app_assoc; reflexivity|].
+      split; [eapply net_run_app; [exact Hp1|]; eapply net_run_app; eassumption|]. split; assumption. }
+  (* phase 3 *)
+  set (T3 := T2 + Dack) in *.
+  destruct (fair_leads_under Dt Da safe3 (K3 u0 dk T3)
+              (fun fa st => Qg u0 st \/ K4 u0 dk (T3 - dk + Dt) fa st) y T3
+              ltac:(intros fa0 st0 (_ & _ & _ & A & _); exact A)
+              ltac:(intros fa0 st0 ev0 st0' R0 R0' J0 F0 S0; exact (K3_step _ _ _ _ _ _ _ HDt R0 R0' J0 F0 S0))
+              post2 fa2 st2 st' HK3 HR2 Hf2 Hq2 ltac:(unfold T3, T2, T1 in *; lia))
+    as (pre3 & post3 & fa3 & st3 & -> & Hs1 & Hs2 & HR3 & Hf3 & [HQ | HK4]).
+  { exists (pre ++ pre2 ++ pre3), post3, st3. split; [rewrite !app_assoc; reflexivity|].
+    split; [eapply net_run_app; [exact Hp1|]; eapply net_run_app; eassumption|]. split; assumption. }
+  assert (HT : T3 - dk + Dt <= T4) by (unfold T4, T3, T2; lia).
+  destruct (Hfin post3 fa3 st3 _ HT HK4 HR3 Hf3 Hs2) as (pre4 & post4 & st4 & -> & Hr1 & Hr2 & HQ).
+  exists (pre ++ pre2 ++ pre3 ++ pre4), post4, st4. split; [rewrite !app_assoc; reflexivity|].
+  split; [eapply net_run_app; [exact Hp1|]; eapply net_run_app; [exact Hq1|]; eapply net_run_app; eassumption|].
+  split; assumption.
+Qed.
+
 End Ack.
